@@ -259,7 +259,22 @@ def check(repo, tier):
             sc.old = [list(g._attrs['cores']) for g in gl]
             sc.old_ranks = [list(g._attrs['ranks']) for g in gl]
             return sc.call(entry, x, y, basis, guess, repeats=rep, rcond=RCOND, progress=False)
-        for ch, sc, res, exc in l2.explore(repo, body, typed=True):
+        def gram_rule(sc):
+            # ... and it acts on the singular values of the micro matrix itself: the normal equations (lstsq of M M^T) square them, the same rcond then cuts at sqrt(rcond)
+            for e in sc.events('lstsq'):
+                if e.get('gram') and e.get('cond') is not None and l2rules.in_modules(e, mods):
+                    where, cons, f_, ln = l2rules.ev_where(repo, e, mods)
+                    run.oblige('D2', (where, cons, 'rcond on the micro matrix'), False)
+                    run.add(Finding('C16', 'D2', where, cons, f'{scen}: a micro least-squares problem is solved through its normal equations (lstsq of M M^T) with the caller\'s rcond: the cut-off '
+                                    f'acts on the squared singular values, i.e. singular values below sqrt(rcond) = {RCOND ** 0.5:g} relative to the largest are discarded instead of those below {RCOND:g}', f_, ln))
+        try:
+            paths_ = l2.explore(repo, body, typed=True)
+        except AnalysisError as ae_:
+            for _c, sc_, _r, _x in list.__iter__(getattr(ae_, 'paths', [])):
+                gram_rule(sc_)
+            raise
+        for ch, sc, res, exc in paths_:
+            gram_rule(sc)
             # the cut-off ratio of every micro least-squares problem is the caller's rcond (both half sweeps, every row)
             ls = [e for e in sc.events('lstsq') if l2rules.in_modules(e, mods)]
             wrong = [e for e in ls if e.get('cond') != RCOND]
